@@ -8,8 +8,8 @@ open Knut.Generated.ProcOrder
 
 /-- `knut check` (`cmd/commands/check.go`): ONE processor, `checker.Check()` of the local `checker := check.Checker{Write, NoCheck}` —
 the stage of `TransProcessAllCheck` (`checkProc` folded over a day, `Check_day_agrees`). -/
-theorem checkOrder_eq : checkOrder = ["(check.Checker).Check"] := rfl
+theorem checkOrder_eq : checkOrder = ["(check.Checker).Check"] := by decide
 
-theorem checkCalls_eq : checkCalls = [("(check.Checker).Check", [])] := rfl
+theorem checkCalls_eq : checkCalls = [("(check.Checker).Check", [])] := by decide
 
 end Knut.FactsAgree.ProcOrder
